@@ -341,7 +341,7 @@ def run(report, tier, seed):
                 jobs.append((f'{f}_int_n{n}_{"neg" if neg else "pos"}', _job, (f, 0, n, neg, mmax, None, to, False, True)))
     jobs.append(('formulas', _formula_job, (tier,)))
     jobs.sort(key=lambda j: 0 if j[0] == 'formulas' else 1)       # the formula-level job first (it is cheap and must not fall to the budget)
-    res = e2.run_jobs(jobs, NCPU, deadline=to * 2 + 120, total=900 if tier == 'quick' else 4800)
+    res = e2.run_jobs(jobs, NCPU, deadline=to * 2 + 120, total=900 if tier == "quick" else 2400)
     fr = res.pop('formulas', {'error': 'formula job missing'})
     if 'error' in fr:
         report.condition('formula.level', 'native', 'inconclusive', detail=fr['error'])
